@@ -75,9 +75,10 @@ def check_binary(res, op, UA, PA, WA, UB, PB, WB, tag):
     else:
         A, B = lib.mk_curve(UA, PA, WA), lib.mk_curve(UB, PB, WB)
     sa, sb = lib.snap_curve(A), lib.snap_curve(B)
-    if tag.get("data") != "int_arrays":
+    if tag.get("data") == "generic":
         # the same operation on float (and int-knot) curves with numerically equal knots runs FIRST: the exact result must
-        # not depend on what was computed before for another number type (value-keyed tables)
+        # not depend on what was computed before for another number type (value-keyed tables). Once per pair of knot vectors
+        # and operation (the generic data come first for every pair).
         for rep in ("float", "int"):
             Af, Bf = lib.mk_curve(UA, PA, WA, rep), lib.mk_curve(UB, PB, WB, rep)
             lib.outcome({"+": lambda: Af + Bf, "-": lambda: Af - Bf, "*": lambda: Af * Bf, "/": lambda: Af / Bf, "@": lambda: Af @ Bf}[op])
